@@ -77,6 +77,12 @@ Theorem C05_layout_explicit :
 Proof. intros prog locs out Hwf Hasm Hsmall. apply check_image_layout. exact (layout_sound prog locs out Hwf Hasm Hsmall). Qed.
 Print Assumptions C05_layout_explicit.
 
+(* laid_out read pairwise: of any two placed directives the earlier one ends at or before the later one starts *)
+Theorem C05_no_overlap : forall a p b q c pos e,
+  laid_out pos (a ++ p :: b ++ q :: c) e -> p_start p + p_size p <= p_start q.
+Proof. exact laid_out_pairwise. Qed.
+Print Assumptions C05_no_overlap.
+
 (* non-vacuity: a forward BR over 16 filler bytes (needs a prefix), a backward BR, an absolute reference to a
    PROC label that names padded DATA *)
 Definition C05_example : list directive :=
